@@ -64,6 +64,20 @@ func (g *LookupGen) GlyphSet(max int) []glyph.ID { return g.glyphSet(max) }
 func (g *LookupGen) glyphSet(max int) []glyph.ID {
 	k := 1 + g.T.Draw(max)
 	set := map[glyph.ID]bool{}
+	if g.T.Chance(1, 4) && g.N > 12 {
+		// a few runs of consecutive glyphs: the shape for which the encoder
+		// chooses range records (coverage format 2, class definition
+		// format 1/2 with long ranges)
+		runs := 1 + g.T.Draw(3)
+		for r := 0; r < runs; r++ {
+			start := int(g.gid())
+			n := 2 + g.T.Draw(7)
+			for i := 0; i < n && start+i < g.N; i++ {
+				set[glyph.ID(start+i)] = true
+			}
+		}
+		k = 0
+	}
 	for i := 0; i < k; i++ {
 		set[g.gid()] = true
 	}
@@ -660,6 +674,33 @@ func BigGpos(t *tape.Tape, n int) *gtab.Info {
 			s[glyph.Pair{Left: left, Right: right}] = &gtab.PairAdjust{
 				First:  &gtab.GposValueRecord{XAdvance: v, XPlacement: v + 1, YPlacement: v + 2},
 				Second: &gtab.GposValueRecord{XAdvance: -v, XPlacement: 3, YPlacement: 4},
+			}
+		}
+		info.LookupList = append(info.LookupList, &gtab.LookupTable{Meta: &gtab.LookupMetaInfo{LookupType: 2}, Subtables: []gtab.Subtable{s}})
+	}
+	var all []gtab.LookupIndex
+	for i := range info.LookupList {
+		all = append(all, gtab.LookupIndex(i))
+	}
+	info.FeatureList = gtab.FeatureListInfo{{Tag: "kern", Lookups: all}}
+	info.ScriptList = gtab.ScriptListInfo{language.MustParse("und-Zzzz"): {Required: 0xFFFF, Optional: []gtab.FeatureIndex{0}}}
+	return info
+}
+
+// MidGpos builds a GPOS table with one or two pair adjustment subtables of
+// 300..900 pairs (3..12 KiB encoded): the size of real kerning data.
+func MidGpos(t *tape.Tape, n int) *gtab.Info {
+	info := &gtab.Info{}
+	nl := t.Range(1, 2)
+	for l := 0; l < nl; l++ {
+		np := t.Range(300, 900)
+		s := gtab.Gpos2_1{}
+		for i := 0; len(s) < np && i < 4*np; i++ {
+			left := glyph.ID(1 + (i/23)%(n-1))
+			right := glyph.ID(1 + (i*5)%(n-1))
+			v := funit.Int16(1 + (i+l)%120)
+			s[glyph.Pair{Left: left, Right: right}] = &gtab.PairAdjust{
+				First: &gtab.GposValueRecord{XAdvance: -v},
 			}
 		}
 		info.LookupList = append(info.LookupList, &gtab.LookupTable{Meta: &gtab.LookupMetaInfo{LookupType: 2}, Subtables: []gtab.Subtable{s}})
